@@ -4,6 +4,7 @@ From Coq.Strings Require Import Byte.
 From Gopki.Model Require Import Bytes Base64 Pem Der Asn1 Text Algs Glue Pkcs8 Ext Rdn Time X509 Generate HashView Dir Plan Run Ops Cli Merge Validate Current.
 From Gopki.Spec Require Import RegenSpec DirInv MergeSpec ValidateSpec X509Spec ExtSpec AdmissionSpec PolicySpec.
 From Gopki.Proofs Require Import RunProofs ExtProofs PlanProofs WfProofs X509Proofs DerProofs Asn1Proofs TimeRangeProofs RdnProofs GenerateProofs ValidateProofs TimeProofs AlgsProofs Base64Proofs PolicyProofs MergeProofs CliProofs OpsProofs FaultProofs HistoryProofs HashViewProofs Pkcs8Proofs RecoverProofs PemTornProofs AdmissionProofs PemProofs GlueProofs.
+From Gopki.Model Require Import Crypto.
 Import ListNotations.
 
 (* every entity written by a successful run verifies under, and names, its issuer's current certificate (its own when it has no issuer) *)
@@ -28,3 +29,23 @@ Theorem C01_aki_is_ski :
       x_value (build_ski_hash sha1 c2 issuer_bits) = enc t2 /\ spec_dec_aki t1 = Some (spec_dec_ski t2).
 Proof. exact aki_is_ski. Qed.
 Print Assumptions C01_aki_is_ski.
+
+(* cert.Sign over abstract signature primitives: the signature in the certificate verifies, under the issuer's public key and
+   with the scheme of the algorithm, over exactly the TBSCertificate bytes that are in the certificate; a signature algorithm
+   that does not fit the signing key's type makes signing fail.  [sig_correct] is the only premise about the primitives. *)
+Theorem C01_signature_verifies :
+  forall (privkey pubkey : Type) (pub : privkey -> pubkey) (key_is_rsa : privkey -> bool)
+         (sig_sign : bool * N -> privkey -> bytes -> N -> bytes) (sig_verify : bool * N -> pubkey -> bytes -> bytes -> bool),
+    (forall alg k m r, fst alg = key_is_rsa k -> sig_verify alg (pub k) m (sig_sign alg k m r) = true) ->
+    forall (c : tcert) (alg : bool * N) (k : privkey) (nonce : N) (c' : tcert),
+      sign_cert privkey key_is_rsa sig_sign c alg k nonce = Some c' ->
+      exists tbs, enc_tbs c' = Some tbs /\ sig_verify alg (pub k) (enc tbs) (t_sig c') = true /\ fst alg = key_is_rsa k.
+Proof. exact sign_verifies. Qed.
+Print Assumptions C01_signature_verifies.
+
+Theorem C01_mismatching_algorithm_fails :
+  forall (privkey : Type) (key_is_rsa : privkey -> bool) (sig_sign : bool * N -> privkey -> bytes -> N -> bytes)
+         (c : tcert) (alg : bool * N) (k : privkey) (nonce : N),
+    fst alg <> key_is_rsa k -> sign_cert privkey key_is_rsa sig_sign c alg k nonce = None.
+Proof. exact sign_mismatch_fails. Qed.
+Print Assumptions C01_mismatching_algorithm_fails.
